@@ -307,33 +307,66 @@ thread_local! {
 /// Runs `f` with every dump taken by this thread executed on a thread for which the kernel refuses
 /// PTRACE_GETREGSET for the general-purpose set (bit 0) and/or the floating-point set (bit 1), as an
 /// old kernel, a ptrace emulation or a sandbox policy on the dumping process would: the writer then has
-/// to use its second interface (PTRACE_GETREGS / PTRACE_GETFPREGS) for that set.
+/// to use its second interface (PTRACE_GETREGS / PTRACE_GETFPREGS) for that set.  Bits 2..4 refuse the
+/// second interfaces and PTRACE_PEEKUSER too (then the thread's registers cannot be read at all).
 pub fn with_refused_regsets<R>(mask: u8, f: impl FnOnce() -> R) -> R {
-    let old = REFUSED_REGSETS.with(|m| m.replace(mask & 3));
+    let old = REFUSED_REGSETS.with(|m| m.replace(mask & 31));
     let r = f();
     REFUSED_REGSETS.with(|m| m.set(old));
     r
 }
 
-/// seccomp filter for the calling thread: ptrace(PTRACE_GETREGSET, _, NT_PRSTATUS / NT_PRFPREG, _) -> EIO
+/// seccomp filter for the calling thread: the selected ptrace requests fail with EIO.
+/// bit 0: PTRACE_GETREGSET for NT_PRSTATUS, bit 1: PTRACE_GETREGSET for NT_PRFPREG,
+/// bit 2: PTRACE_GETREGS, bit 3: PTRACE_GETFPREGS, bit 4: PTRACE_PEEKUSER (debug registers)
 fn install_regset_filter(mask: u8) -> bool {
     const ALLOW: u32 = 0x7fff_0000;
     const EIO: u32 = 0x0005_0000 | 5;
     let ins = |code: u16, jt: u8, jf: u8, k: u32| libc::sock_filter { code, jt, jf, k };
+    let ret = |refuse: bool| ins(0x06, 0, 0, if refuse { EIO } else { ALLOW });
     let prog = [
-        ins(0x20, 0, 0, 0),                   // A = nr
-        ins(0x15, 0, 5, libc::SYS_ptrace as u32),
-        ins(0x20, 0, 0, 16),                  // A = low half of the request
-        ins(0x15, 0, 3, 0x4204),              // PTRACE_GETREGSET
-        ins(0x20, 0, 0, 32),                  // A = low half of the note type
-        ins(0x15, 2, 0, 1),                   // NT_PRSTATUS
-        ins(0x15, 2, 0, 2),                   // NT_PRFPREG
-        ins(0x06, 0, 0, ALLOW),
-        ins(0x06, 0, 0, if mask & 1 != 0 { EIO } else { ALLOW }),
-        ins(0x06, 0, 0, if mask & 2 != 0 { EIO } else { ALLOW }),
+        ins(0x20, 0, 0, 0), // A = nr
+        ins(0x15, 0, 8, libc::SYS_ptrace as u32), // not ptrace -> 10 (allow)
+        ins(0x20, 0, 0, 16), // A = low half of the request
+        ins(0x15, 7, 0, 12), // PTRACE_GETREGS   -> 11
+        ins(0x15, 7, 0, 14), // PTRACE_GETFPREGS -> 12
+        ins(0x15, 7, 0, 3),  // PTRACE_PEEKUSER  -> 13
+        ins(0x15, 0, 3, 0x4204), // not PTRACE_GETREGSET -> 10 (allow)
+        ins(0x20, 0, 0, 32), // A = low half of the note type
+        ins(0x15, 5, 0, 1), // NT_PRSTATUS -> 14
+        ins(0x15, 5, 0, 2), // NT_PRFPREG  -> 15
+        ret(false),         // 10
+        ret(mask & 4 != 0), // 11
+        ret(mask & 8 != 0), // 12
+        ret(mask & 16 != 0), // 13
+        ret(mask & 1 != 0), // 14
+        ret(mask & 2 != 0), // 15
     ];
     let fprog = libc::sock_fprog { len: prog.len() as u16, filter: prog.as_ptr() as *mut _ };
     unsafe { libc::prctl(libc::PR_SET_NO_NEW_PRIVS, 1, 0, 0, 0) == 0 && libc::prctl(libc::PR_SET_SECCOMP, 2 /* SECCOMP_MODE_FILTER */, &fprog as *const _) == 0 }
+}
+
+/// Runs `f` on a fresh thread for which the kernel refuses the selected ptrace register requests (see
+/// `install_regset_filter`) and returns its result; None if the filter could not be installed.  The
+/// thread - the tracer of whatever `f` leaves attached - lives until `f` returns, so `f` can observe
+/// the target as a long-lived dumping thread would leave it (a tracer that exits releases its tracees).
+pub fn on_filtered_thread<R>(mask: u8, f: impl FnOnce() -> R) -> Option<R> {
+    struct P<T>(T);
+    unsafe impl<T> Send for P<T> {}
+    let pf = P(f);
+    std::thread::scope(|s| {
+        s.spawn(move || {
+            let pf = pf;
+            if !install_regset_filter(mask & 31) {
+                return None;
+            }
+            Some(P((pf.0)()))
+        })
+        .join()
+        .ok()
+        .flatten()
+        .map(|p| p.0)
+    })
 }
 
 pub fn run_dump(w: &mut MinidumpWriter, dest: &mut Dest) -> DumpOutcome {
